@@ -139,6 +139,11 @@ def key_blob_unit(cls, kind):
                 for e, n in ((65537, (1 << 1023) | 12345), (3, (1 << 2047) | 1)):
                     cases.append((SshHostKeyAlgorithm.SSH_RSA, PublicKey.from_params(PublicKeyParamsRsa(public_exponent=e, modulus=n)),
                                   st(b'ssh-rsa') + mpi(e) + mpi(n)))
+            elif kind == 'dss':
+                from cryptodatahub.common.key import PublicKeyParamsDsa
+                for p_, q_, g_, y_ in (((1 << 1023) | 5, (1 << 159) | 3, (1 << 1022) | 7, (1 << 1023) | 9), (0x7fffffff, 0x0fffffff, 5, 0x12345678)):
+                    cases.append((SshHostKeyAlgorithm.SSH_DSS, PublicKey.from_params(PublicKeyParamsDsa(prime=p_, generator=g_, order=q_, public_key_value=y_)),
+                                  st(b'ssh-dss') + mpi(p_) + mpi(q_) + mpi(g_) + mpi(y_)))
             elif kind == 'eddsa':
                 kd = bytes(range(32))
                 cases.append((SshHostKeyAlgorithm.SSH_ED25519, PublicKey.from_params(PublicKeyParamsEddsa(curve_type=NamedGroup.CURVE25519, key_data=kd)),
